@@ -203,3 +203,32 @@ PROPS["C01"] = {
                    "ledger checked when the wait returns, happens-before clocks on the units' writes, deadlock detection.",
     "legs": _c01(),
 }
+
+# ------------------------------------------------------------------------------------------------ C02
+def _c02():
+    L = []
+    for name, prm, b in [("mon-1-one", {"sleepers": 1, "notify": "one"}, (3, 4)), ("mon-2-all", {"sleepers": 2, "notify": "all"}, (3, 3)), ("mon-2-one", {"sleepers": 2, "notify": "one"}, (2, 3)),
+                         ("mon-2-pred", {"sleepers": 2, "notify": "pred"}, (2, 3)), ("mon-2-abort", {"sleepers": 2, "notify": "abort"}, (2, 3)),
+                         ("mon-1-two-notifiers", {"sleepers": 1, "notifiers": 2, "notify": "one"}, (3, 4)), ("mon-2-relaxed", {"sleepers": 2, "notify": "relaxed"}, (2, 3))]:
+        L.append(leg(name, "c02_monitor", b, prm, what="concurrent_monitor: prepare/re-check/commit vs state change + notify (%s)" % prm["notify"]))
+    L.append(leg("bq-block", "c09_queue", (2, 3), {"prog": "P1,P2|Q,Q", "bounded": 1, "cap": 1}, what="concurrent_bounded_queue capacity 1: blocked push vs pop and blocked pop vs push"))
+    L.append(leg("bq-3", "c09_queue", (2, 2), {"prog": "P1|P2|Q,Q", "bounded": 1, "cap": 1}, what="two blocked pushers, one popper"))
+    L.append(leg("mutex-sleep", "c08_mutex", (2, 3), {"kind": "mutex", "prog": "W,W|W|W"}, what="tbb::mutex futex sleeping path"))
+    L.append(leg("rw_mutex-sleep", "c08_mutex", (2, 3), {"kind": "rw", "prog": "W|R,W|U"}, what="tbb::rw_mutex sleeping path"))
+    for k, what, b in [("wait_sleep", "external waiter asleep in task_group::wait while a worker finishes the last task", (2, 3)),
+                       ("enqueue", "enqueue with nobody waiting; worker spinning", (3, 4)), ("enqueue2", "second enqueue meets a worker that is leaving / going to sleep", (2, 3)),
+                       ("enqueue1", "arena with max_concurrency 1 (mandatory worker)", (3, 4)), ("enqueue_limit1", "max_allowed_parallelism 1: soft limit 0, mandatory concurrency", (3, 3)),
+                       ("enqueue_gc", "the parallelism limit drops to 1 while the enqueue is in flight", (1, 2)), ("two_arenas", "two arenas with enqueued work compete for one worker", (2, 3)),
+                       ("execute_full", "task_arena::execute with no free slot (delegation + exit monitor)", (1, 2))]:
+        L.append(leg("rt-" + k, "c02_rt", b, {"kind": k}, what=what, weight=2.0 if b[0] == 1 else 1.0))
+    for k in ("wait_sleep", "enqueue", "enqueue2"):
+        L.append(leg("rt-%s-asleep" % k, "c02_rt", (2, 3), {"kind": k, "asleep": 1}, what="same, worker asleep when the window opens"))
+    return L
+PROPS["C02"] = {
+    "explanation": "Closed 2-4 thread systems in which a lost wake-up is a deadlock: (1) the real concurrent_monitor alone (sleeper prepare_wait / re-check / commit_wait vs "
+                   "notifier state change + notify_one/all/pred/abort_all), (2) concurrent_bounded_queue blocking push/pop, (3) tbb::mutex / rw_mutex sleeping paths, (4-6) the real "
+                   "scheduler: task_group::wait with the external waiter asleep, task_arena::enqueue with nobody waiting (worker spinning / asleep / leaving, one-slot arena, parallelism "
+                   "limit 1, limit change in flight, two arenas and one worker), execute() without a free slot. The main thread blocks on an event only the task signals; "
+                   "oracle = deadlock/livelock detector + step horizon (hang).",
+    "legs": _c02(),
+}
